@@ -265,6 +265,8 @@ def many_records(res, scratch, n):
         r = base[i % len(base)]
         # every seventh read name carries blanks (GraphAligner keeps the FASTA description): columns are tab-separated only
         urecs.append(rgfa.Rec(f"m{i} len=9 ch=3" if i % 7 == 3 else f"m{i}", *r.cols()[1:], opt=list(r.opt)))
+    # one record longer than 64 KiB (a long read with a base-level difference string): no length limit applies to a GAF line
+    urecs[11] = rgfa.Rec(urecs[11].qname, *urecs[11].cols()[1:], opt=list(urecs[11].opt) + ["zd:Z:" + "ACGT" * 17_500])
     for stable in (False, True):
         recs = [rgfa.to_stable_model(g, r) for r in urecs] if stable else urecs
         P = Prepared(scratch, g, L, "realistic", stable, "many", recs, "plain", "many")
